@@ -394,6 +394,10 @@ type LockCommandData struct {
 }
 
 func NewLockCommandDataFromOriginBytes(data []byte) *LockCommandData {
+	if len(data) < 6 {
+		// too short to carry an operation header: a frame of a non-current stage is ignored by ProcessLockData
+		return &LockCommandData{data, LOCK_DATA_STAGE_UNLOCK, LOCK_DATA_COMMAND_TYPE_SET, 0}
+	}
 	return &LockCommandData{data, data[4] >> 6, data[4] & 0x3f, data[5]}
 }
 
